@@ -87,7 +87,7 @@ theorem scanEmitHint_sim (F : Frame inpS inpW δ) (hops : OpsSim env.ops inpS in
     simp only [shR, htns, hpos]
   rw [hr, hs.hash]
   cases hn : LocalName.new inpS ⟨ss.tagNameStart, cs.pos⟩ ss.tagNameHash with
-  | none => exact Or.inl trivial
+  | none => exact Or.inl ⟨rfl, trivial⟩
   | some name =>
     rw [localName_sh F hn]
     simp only
